@@ -201,6 +201,10 @@ def label_cases(ctx, n):
              "[tcp:response]\n" + "".join(f"label = {l}\n" + "".join(f"sig = {s}\n" for s in ss) for l, ss in resp.items())
         lab = r.choice(labs)
         syn_ack = r.random() < 0.5
+        if r.random() < 0.04:
+            # a database without any record, and a label the SHIPPED database knows: DatabaseError, not a fallback
+            db, req, resp = "; nothing here\n", {}, {}
+            lab = r.choice(["s:unix:Linux:3.11 and newer", "s:win:Windows:XP", "g:unix:Linux:2.6.x"])
         cands = (resp if syn_ack else req).get(lab, [])
         cands = [s for s in cands]
         usable = [s for s in cands if s.split(":")[0] in ("*", ver)]
